@@ -971,6 +971,9 @@ var namePool = []string{
 	"", "a", "b", "README.md", "src/main.go", "héllo wörld", "文件/名前.go", "\U0001F680", "with \"quote\"",
 	"back\\slash", "new\nline", "tab\tname", ": |-", "project", " leading space", "trailing space ", "a|b@c.d",
 	"<unmatched>", "\"", "\\", "- x", "  files:", "    1 2 3", "\u0000nul", "é", "‮RTL", "(paren) (s)",
+	// round 4: a few members of the name groups of content.go, so that they also meet the out-of-range, malformed and
+	// loaded-dictionary streams (all valid UTF-8)
+	"A", "a ", "what\ufffd", "what?", "\ufeffa", "a\r", "a\r\n", "a\u2028b", "a\u00a0b", "a b", "f10.go",
 }
 
 func (g *gen) name() string {
@@ -1475,6 +1478,7 @@ func main() {
 		})
 	}
 	scaleFamily(c, g)
+	contentFamily(c, g)
 	finalized(c, c.Count(150, 3000))
 	for i := c.Count(10000, 60000); i > 0; i-- {
 		emitBd(c, "bd", g.burndown(false))
